@@ -35,7 +35,7 @@ def media(ct):
 class Integration:
     """one integration with its dispatcher; register(methods) -> post(path, body, content_type)"""
 
-    def __init__(self, kind, path, status_by_error=None, endpoint=''):
+    def __init__(self, kind, path, status_by_error=None, endpoint='', endpoint_mode='plain'):
         """endpoint: '' = the integration's main endpoint, '/x' = an additional endpoint added with add_endpoint (aiohttp, flask)"""
         self.kind = kind
         self.path = path
@@ -56,7 +56,21 @@ class Integration:
         if endpoint:
             if kind.startswith('werkzeug'):
                 raise ValueError('the werkzeug integration has no additional endpoints')
-            self.dispatcher = self.rpc.add_endpoint(endpoint)
+            if endpoint_mode == 'plain':
+                self.dispatcher = self.rpc.add_endpoint(endpoint)
+            elif endpoint_mode == 'container' and kind == 'aiohttp':
+                # the endpoint lives on its own aiohttp sub-application
+                self.dispatcher = self.rpc.add_endpoint(endpoint, subapp=web.Application())
+            elif endpoint_mode == 'container' and kind == 'flask':
+                self.dispatcher = self.rpc.add_endpoint(endpoint, blueprint=flask.Blueprint('bp_c18', 'c18'))
+            elif endpoint_mode == 'child' and kind == 'aiohttp':
+                # a child pjrpc Application mounted with add_subapp
+                child = ia.Application('/rpc2', **kw)
+                self.rpc.add_subapp(endpoint, child)
+                self.dispatcher = child.dispatcher
+                self.endpoint = endpoint + '/rpc2'
+            else:
+                raise ValueError('unsupported endpoint mode %s for %s' % (endpoint_mode, kind))
         self._ready = False
 
     def ready(self):
